@@ -51,7 +51,7 @@ theorem ternBuild_rvalue {c a b n : IExpr} {τc τ s d : ETy} {ca cb : Conversio
   all_goals (first | (simp at h; done) | skip)
   all_goals (simp only [Except.ok.injEq, Prod.mk.injEq] at h; obtain ⟨rfl, rfl⟩ := h)
   all_goals (
-    obtain ⟨t, ht, hv, _⟩ := targetType_ok hf
+    have ht := targetType_ok hf
     simp_all)
 
 theorem elabTern_rvalue {c a b n : IExpr} {τc τa τb τ : ETy}
